@@ -1,0 +1,58 @@
+//go:build verif
+
+// Machine-checked contracts for govc (see /verif/DESIGN.md). Comments only;
+// compiled only with the build tag "verif".
+
+package keystore
+
+// C19: JOSEAlgorithm/JWK panic for keys they have no algorithm mapping for. That is a caller-side
+// obligation: every caller must have established joseOK (CheckSigningSupport does).
+//@ spec joseOK(alg string, size int) bool = (alg == "RSA" && (size == 2048 || size == 3072 || size == 4096)) || (alg == "ECDSA" && (size == 256 || size == 384 || size == 521))
+
+//@ func getRSAAlgorithm
+//@   props C19
+//@   safety nonil
+//@   pure
+//@   requires keySize == 2048 || keySize == 3072 || keySize == 4096
+
+//@ func getECDSAAlgorithm
+//@   props C19
+//@   safety nonil
+//@   pure
+//@   requires keySize == 256 || keySize == 384 || keySize == 521
+
+//@ func (*Entry).JOSEAlgorithm
+//@   props C19
+//@   safety nonil
+//@   pure
+//@   requires joseOK(e.Alg, e.KeySize)
+
+//@ func (*Entry).JWK
+//@   props C19
+//@   safety nonil
+//@   pure
+//@   requires joseOK(e.Alg, e.KeySize)
+
+//@ func (*Entry).CheckSigningSupport
+//@   props C19
+//@   safety nonil
+//@   pure
+//@   ensures ret0 == nil ==> joseOK(e.Alg, e.KeySize)
+
+// the entries of a key store are a function of the key store value (no hidden state)
+//@ spec entriesOf(ks KeyStore) []*Entry
+//@ iface (KeyStore).Entries
+//@   props C19
+//@   pure
+//@   defines entriesOf(recv)
+
+// C19: chain building and validation index into the chain; callers pass a non-empty one.
+//@ func buildChain
+//@   props C19
+//@   safety nonil
+//@   requires len(chain) > 0
+
+//@ func ValidateChain
+//@   props C19
+//@   safety nonil
+//@   requires len(chain) > 0
